@@ -1,6 +1,7 @@
 import TsVerif.Common.IO
 import TsVerif.C04.Judge
 import TsVerif.C04.Ends
+import TsVerif.C04.Reach
 /-!
 Driver for C04.  Line protocol (see harness/src/bin/c04.rs, harness/csrc/cunit_c04.c):
 
@@ -126,9 +127,10 @@ def runCase (s : St) : String :=
     let hiB := max o.root.totalBytes n.root.totalBytes
     let concl := traceAdmissible [] (ch.main ++ ch.post) && hGrow && hTile && ch.ranges.all (fun r => decide (r.end_byte ≤ hiB))
       && ch.ranges.all (fun r => decide (r.start_byte < r.end_byte))
-    -- not a theorem (OPEN): the walk reaches the end of the shorter tree
+    -- `walk_reaches_end` (needs, in addition, visible roots): the walk reaches the end of the shorter tree
+    let pRoot := rootOK o.root && rootOK n.root
     let reach := decide (spansEnd (loopStart o.root n.root) ch.spans ≥ min o.root.totalBytes n.root.totalBytes)
-    s!"{s.id} corr={corr} corrF={if corrF == "ok" then "ok" else "DIFF"} corrA={if corrA == "ok" then "ok" else "DIFF"} corrmsg={corrF} judge={j} cause={cause} mono={mono} msound={ms} cov={cov} prem={prem} concl={if concl then "ok" else "bad"} reach={if reach then 1 else 0} nr={s.reported.length} diffbytes={v.diffBytes} uncov={v.uncovered} uncovtok={v.uncoveredInToken} uncovlist={v.uncoveredBytes} same={v.coveredSame} rchg={rchg} calls={ch.main.length + ch.post.length} matched={ch.matched.length}{fixmsg}"
+    s!"{s.id} corr={corr} corrF={if corrF == "ok" then "ok" else "DIFF"} corrA={if corrA == "ok" then "ok" else "DIFF"} corrmsg={corrF} judge={j} cause={cause} mono={mono} msound={ms} cov={cov} prem={prem} concl={if concl then "ok" else "bad"} reach={if reach then 1 else 0} root={if pRoot then 1 else 0} nr={s.reported.length} diffbytes={v.diffBytes} uncov={v.uncovered} uncovtok={v.uncoveredInToken} uncovlist={v.uncoveredBytes} same={v.coveredSame} rchg={rchg} calls={ch.main.length + ch.post.length} matched={ch.matched.length}{fixmsg}"
   | _, _, _ => s!"{s.id} corr=BADINPUT judge=BADINPUT"
 
 def step (s : St) (line : String) : IO St := do
